@@ -66,12 +66,34 @@ def default_timeout(run):
     return run.get("watchdog", 8.0)
 
 
+PAD_CHARS = "padding \n(no commands here) #"
+
+
+def real_text(c):
+    """The text the back ends get: the case's program with `pad` comment characters inserted at `padAt`.
+    The specification gets the program without them - comments are no-ops of BF.tla (MCBF: CommentNoop),
+    and stepping over 70 000 of them one action at a time would only burn the step budget."""
+    pad = c.get("pad", 0)
+    if not pad:
+        return c["prog"]
+    at = c.get("padAt", 0)
+    filler = (PAD_CHARS * (pad // len(PAD_CHARS) + 1))[:pad]
+    return c["prog"][:at] + filler + c["prog"][at:]
+
+
+def run_request(c, runs):
+    r = {"op": "run", "id": c["id"], "prog": real_text(c), "w": c["w"], "input": c["input"], "runs": runs}
+    if c.get("pad"):
+        r["specProg"] = c["prog"]
+    return r
+
+
 def execute(hv, cases, runs_for, screen=None, nworkers=None, env=None):
     """cases: dicts with id, prog, w, input.  runs_for(case) -> list of run configs.
     Returns list of (case, runs, results, done)."""
     reqs = []
     for c in cases:
-        r = {"op": "run", "id": c["id"], "prog": c["prog"], "w": c["w"], "input": c["input"], "runs": runs_for(c)}
+        r = run_request(c, runs_for(c))
         if screen:
             r["screen"] = screen
         reqs.append(r)
@@ -89,7 +111,7 @@ def execute(hv, cases, runs_for, screen=None, nworkers=None, env=None):
         c, runs, results, done = out[k]
         if k in confirmed:
             continue
-        rq = {"op": "run", "id": c["id"], "prog": c["prog"], "w": c["w"], "input": c["input"], "runs": [runs[i]]}
+        rq = run_request(c, [runs[i]])
         rr = pool.run_cases(hv, [rq], nworkers=1, run_timeout=lambda run: 3 * default_timeout(run), env=env)
         r2 = rr[0][0][0]
         if "hung" not in r2:
@@ -247,6 +269,8 @@ def witness(case, run, trace, verdict, profile=None):
             w[k] = run[k]
     if profile:
         w["profile"] = profile
+    if case.get("pad"):
+        w["pad"], w["padAt"] = case["pad"], case.get("padAt", 0)
     if case.get("accel"):
         w["accel"] = 1            # canonical run with linear loops summarised (population H)
     w["observed"] = {"log": trace["log"], "claim": trace["claim"], "detail": trace["detail"]}
